@@ -228,6 +228,20 @@ def run(part, args, env):
                         acc.violation(v)
                     if n % 3001 == 1:
                         acc.sample(case)
+        if args['shard'] == 0:
+            # columns (and tags) named like the carrier fields of the JSON encoding itself
+            g = ['grid', ver, [['meta', ['marker']], ['cols', ['num', 1.0]], ['rows', ['str', 'r']]],
+                 [['meta', [['rows', ['str', 'x']], ['cols', ['marker']]]], ['cols', []], ['rows', []], ['name', []], ['ver', []]],
+                 [[['meta', ['num', 1.0]], ['cols', ['str', 'c']], ['rows', ['marker']], ['name', ['str', 'n']], ['ver', ['str', 'v']]],
+                  [['rows', ['num', 2.0]], ['meta', ['str', 'm']], ['cols', ['num', 3.0]]], [['rows', ['num', 2.0]]]]]
+            for k in range(6):
+                for form in FORMS:
+                    case = {'kind': 'doc', 'grids': [g], 'choices': [k], 'as_array': k % 2 == 1, 'form': form, 'single': k % 3 != 1}
+                    try:
+                        check_doc(case, acc)
+                        acc.case(case, True, labels=('carrier-names',))
+                    except Violation as v:
+                        acc.violation(v)
         acc.exhaustive['catalogue value x uniform spelling plan x shape table'] = True
     elif part == 'scalars':
         strat = st.sampled_from(['2.0', '3.0']).flatmap(lambda v: st.builds(
